@@ -103,6 +103,9 @@ func (o *oracle) acquired(t, key int, v *val, fresh bool, how string) {
 		return
 	}
 	vi := o.info(v)
+	if v.garbage && o.tainted == "" {
+		o.fail("failed-constructor-value-handed-out", fmt.Sprintf("thread %d: %s(%d) was handed the value a FAILED constructor had returned with its error", t, how, key))
+	}
 	if o.tainted == "" {
 		if vi.destructed > 0 {
 			o.fail("returned-destructed-value", fmt.Sprintf("thread %d: %s(%d) returned value %d whose destructor has already run", t, how, key, v.id))
@@ -164,6 +167,12 @@ func (o *oracle) step(t int, r stepResult, obs []refObs) {
 	} else {
 		o.tags["ev:"+r.tok[:1]] = true
 	}
+	if r.tok == "Fdg" {
+		o.tags["ev:Fdg"] = true
+	}
+	if r.tok[0] == 'X' && r.tok[len(r.tok)-1] == 'e' {
+		o.tags["ev:Xe"] = true
+	}
 	switch r.tok[:2] {
 	case "Ni", "Nw":
 		o.inflight[key]++
@@ -184,6 +193,9 @@ func (o *oracle) step(t int, r stepResult, obs []refObs) {
 	case "Fd":
 		o.inflight[key]--
 		o.failing[key]--
+		if o.tainted == "" && r.op.kind == opLN && r.op.key == garbageKey && r.tok != "Fdg" {
+			o.fail("failed-constructor-value-not-returned", fmt.Sprintf("thread %d: the constructor of LoadOrNew(%d) returned a value with its error; LoadOrNew returned the error with %s", t, key, map[bool]string{true: "a different value", false: "nil"}[ret.v != nil]))
+		}
 	case "Ss":
 		o.acquired(t, key, ret.v, true, "LoadOrStore")
 	}
@@ -211,6 +223,9 @@ func (o *oracle) step(t int, r stepResult, obs []refObs) {
 		}
 		if r.tok[0] == 'X' && r.dv != nil {
 			o.dtorRan(t, r.dv)
+			if r.op.kind != opClose && o.tainted == "" && ret.err != (r.dv.id%3 == 0) {
+				o.fail("destructor-error-not-passed-on", fmt.Sprintf("thread %d: the destructor of value %d returned error=%v but Delete(%d) returned error=%v", t, r.dv.id, r.dv.id%3 == 0, key, ret.err))
+			}
 		}
 	case 'Q':
 		if ret.n <= 0 && o.tainted == "" {
@@ -238,6 +253,9 @@ func (o *oracle) dtorRan(t int, v *val) {
 	vi.destructed++
 	if o.tainted != "" {
 		return
+	}
+	if v.garbage {
+		o.fail("failed-constructor-value-destructed", fmt.Sprintf("thread %d: the pool destructed the value a failed constructor had returned with its error", t))
 	}
 	if vi.destructed > 1 {
 		o.fail("double-destruct", fmt.Sprintf("value %d of key %d: destructor ran %d times", v.id, vi.key, vi.destructed))
